@@ -421,9 +421,15 @@ impl<'lexer> Lexer<'lexer> {
 
   /// Reads characters from input.
   fn read_input(&mut self) -> [char; BUF_SIZE] {
-    self.consume_whitespace();
-    self.consume_comment();
-    self.consume_whitespace();
+    // any number of comments, each surrounded by any white space
+    loop {
+      self.consume_whitespace();
+      let position = self.position;
+      self.consume_comment();
+      if self.position == position {
+        break;
+      }
+    }
     let mut buffer: [char; BUF_SIZE] = [WS; BUF_SIZE];
     for (offset, value) in buffer.iter_mut().enumerate() {
       if let Some(ch) = self.char_at(offset) {
